@@ -50,6 +50,10 @@ class BootstrapProposalDistribution(ProposalDistribution):
 
                 log_p = np.log((1 - self.outlier_proposal_prob) / 2)
 
+                if old_num_roots == 0:
+                    # Only outliers in the parent tree: sample() puts all non-outlier mass on the new node
+                    log_p = np.log(1 - self.outlier_proposal_prob)
+
                 if old_num_roots > 0:
                     if isinstance(tree, Tree):
                         num_children = tree.get_number_of_children(node)
